@@ -243,6 +243,12 @@ impl<T: Clone> WaitList<T> {
         }
     }
 
+    /// The index at the head of the list.  Verification builds only.
+    #[cfg(rescrv_blue_verif)]
+    pub fn verif_head(&self) -> u64 {
+        self.state.lock().unwrap().head
+    }
+
     fn index_waitlist(&self, index: u64) -> &Waiter<T> {
         let index = index % (self.waiters.len() as u64);
         &self.waiters[index as usize]
